@@ -18,10 +18,14 @@ Local Open Scope nat_scope.
 Definition raw_attrs (attrs : list (str * str)) : list (str * attrv) :=
   map (fun kv => (fst kv, AvStr (snd kv))) attrs.
 
-(* what endData makes of the gathered chunks *)
-Definition gathered (cfg : bconfig) (preserve : bool) (chunks : list str) : str :=
+(* what endData makes of the gathered chunks: only text is collapsed; the content of a comment, CDATA
+   section, doctype, declaration or processing instruction (a PreformattedString class asked for by the
+   builder) is kept as sent *)
+Definition is_special (container : option N) : bool :=
+  match container with Some c => preformatted_cls c | None => false end.
+Definition gathered (cfg : bconfig) (preserve special : bool) (chunks : list str) : str :=
   let current := concat (rev chunks) in
-  if negb preserve && all_in (c_spaces cfg) current
+  if negb special && negb preserve && all_in (c_spaces cfg) current
   then (if memN 10%N current then [10%N] else [32%N])
   else current.
 
@@ -46,7 +50,7 @@ Section ParseOnly.
     match b_data b with
     | [] => b
     | chunks =>
-        let current := gathered cfg (negb (null (b_pws b))) chunks in
+        let current := gathered cfg (negb (null (b_pws b))) (is_special container) chunks in
         if rejects_string (length (b_stack b)) current
         then mkb (b_st b) (b_pay b) (b_stack b) (b_counter b) (b_pws b) (b_scs b) [] (b_mre b) (b_cur b)
         else end_data cfg b container
@@ -95,11 +99,16 @@ Section ParseOnly.
   Definition add_kid (f : frame) (k : pnode) : frame :=
     mkfr (fr_name f) (fr_prefix f) (fr_attrs f) (k :: fr_kids f).
 
-  (* open_tag_counter[name] *)
+  (* open_tag_counter[name]: every open element except the document object at the bottom is counted *)
   Definition zcount (name : str) (stack : list frame) : nat :=
-    length (filter (fun f => str_eqb name (fr_name f)) stack).
+    length (filter (fun f => str_eqb name (fr_name f)) (removelast stack)).
 
-  Definition zreset (cfg : bconfig) : zst := mkz [mkfr (c_root cfg) None [] []] [] [] [].
+  (* reset(): the document object is pushed like any tag (pushTag consults the two name sets for it too) *)
+  Definition zreset (cfg : bconfig) : zst :=
+    mkz [mkfr (c_root cfg) None [] []]
+        (if memS (c_root cfg) (c_pw cfg) then [1] else [])
+        (match assocS (c_root cfg) (c_containers cfg) with Some c => [(1, c)] | None => [] end)
+        [].
 
   (* pushTag *)
   Definition zpush (cfg : bconfig) (z : zst) (f : frame) : zst :=
@@ -135,7 +144,7 @@ Section ParseOnly.
     match z_data z with
     | [] => z
     | chunks =>
-        let current := gathered cfg (negb (null (z_pws z))) chunks in
+        let current := gathered cfg (negb (null (z_pws z))) (is_special container) chunks in
         if rejects_string (length (z_stack z)) current
         then mkz (z_stack z) (z_pws z) (z_scs z) []
         else
@@ -153,8 +162,9 @@ Section ParseOnly.
     else zpush cfg z (mkfr name prefix attrs []).
 
   (* _popToTag *)
+  (* any(... for t in reversed(self.tagStack[1:])) *)
   Definition zis_open (z : zst) (name : str) (prefix : option str) : bool :=
-    existsb (fun f => str_eqb name (fr_name f) && opt_str_eqb prefix (fr_prefix f)) (z_stack z).
+    existsb (fun f => str_eqb name (fr_name f) && opt_str_eqb prefix (fr_prefix f)) (removelast (z_stack z)).
   Fixpoint zpop_loop (n : nat) (z : zst) (name : str) (prefix : option str) : zst :=
     match n with
     | O => z
@@ -169,8 +179,7 @@ Section ParseOnly.
         end
     end.
   Definition zpop_to_tag (cfg : bconfig) (z : zst) (name : str) (prefix : option str) : zst :=
-    if str_eqb name (c_root cfg) then z
-    else if negb (Nat.eqb (zcount name (z_stack z)) 0) && negb (zis_open z name prefix) then z
+    if negb (Nat.eqb (zcount name (z_stack z)) 0) && negb (zis_open z name prefix) then z
     else zpop_loop (pred (length (z_stack z))) z name prefix.
 
   Definition zend (cfg : bconfig) (z : zst) (name : str) (prefix : option str) : zst :=
@@ -191,8 +200,8 @@ Section ParseOnly.
     | O => z
     | S n' =>
         match z_stack z with
-        | f :: _ => if str_eqb (fr_name f) (c_root cfg) then z else zpop_all n' cfg (zpop z)
-        | [] => z
+        | _ :: _ :: _ => zpop_all n' cfg (zpop z)          (* while self.currentTag is not self *)
+        | _ => z
         end
     end.
 
